@@ -24,11 +24,12 @@ type OpC17 struct {
 }
 
 type CaseC17 struct {
-	Doc   *XElem                 `json:"doc"`
-	Value map[string]interface{} `json:"value,omitempty"` // shared Map (else the decoded document)
-	Plans [][]OpC17              `json:"plans"`
-	Procs int                    `json:"procs"`
-	Yield int                    `json:"yield"` // Gosched every Yield-th operation
+	Doc        *XElem                 `json:"doc"`
+	Value      map[string]interface{} `json:"value,omitempty"` // shared Map (else the decoded document)
+	Plans      [][]OpC17              `json:"plans"`
+	Procs      int                    `json:"procs"`
+	Yield      int                    `json:"yield"`                  // Gosched every Yield-th operation
+	SeqViaJSON bool                   `json:"seq_via_json,omitempty"` // the shared MapSeq went through Copy (JSON): float64 sequence numbers
 }
 
 func init() { register("C17", checkC17) }
@@ -80,6 +81,7 @@ func genC17(t *rapid.T) CaseC17 {
 	}
 	c.Procs = rapid.SampledFrom([]int{2, 4, 16}).Draw(t, "procs")
 	c.Yield = rapid.IntRange(1, 4).Draw(t, "yield")
+	c.SeqViaJSON = rapid.Bool().Draw(t, "seqviajson")
 	return c
 }
 
@@ -253,6 +255,14 @@ func checkC17(c CaseC17, info *Info) *Failure {
 	sharedSeq, err := mxj.NewMapXmlSeq(doc)
 	if err != nil {
 		return failf("decode-error", "%v", err)
+	}
+	if c.SeqViaJSON {
+		cp, cerr := mxj.Map(sharedSeq).Copy()
+		if cerr != nil {
+			return failf("copy-error", "%v", cerr)
+		}
+		sharedSeq = mxj.MapSeq(cp)
+		info.Class("MapSeq with float64 sequence numbers (after Copy)")
 	}
 	jdoc, _ := shared.Json()
 	snapshot := copyMap(shared)
